@@ -4,7 +4,7 @@
     Z, positive, nat stay the extracted inductives. *)
 From Coq Require Import ZArith List String.
 From Coq Require Import ExtrOcamlBasic ExtrOcamlString.
-From TV Require Import Layout.Types gen.Tables gen.Pinned Model.Monad Model.Ints Model.Decoder Model.Message Model.Pump Model.Show Spec.Value Spec.Message.
+From TV Require Import Layout.Types gen.Tables gen.Pinned Model.Monad Model.Ints Model.Decoder Model.Message Model.Pump Model.Show Model.Attr Spec.Value Spec.Message.
 
 Definition tables_current : tables := Tables.T.
 Definition tables_pinned : tables := Pinned.T.
@@ -22,9 +22,18 @@ Definition run_spec (T : tables) (r : root) (input : list Z) : string :=
       end
   end.
 
+(** attribute word: per field  name=accessor:row *)
+Definition run_attr (p : prim) (v : Z) : string :=
+  let nbits := Z.to_nat (8 * pwidth p) in
+  sconcat ","%string
+    (map (fun nm => String.append (fst nm) (String.append "="%string (String.append
+            (match accessor nbits (snd nm) v with Some a => dec_string a | None => "LOOP"%string end)
+            (String.append ":"%string (show_row (bit_row nbits (snd nm) v))))))
+         (attr_masks p)).
+
 Extraction "Extract/model.ml"
   tables_current tables_pinned prims_current prims_pinned
-  run_decode run_obj run_spec find_type
+  run_decode run_obj run_spec run_attr find_type
   prim_text prim_bytes valid representable pname pwidth psigned pkind_
   hex2 dec_string show_hex_
   RType RCommand RResponse RStream.
